@@ -104,7 +104,7 @@ class Spec(PropSpec):
                     "cross-checked on every generated history). Still excluded by the second theorem beyond the known classes: "
                     "create_dir_all / remove_dir_all, a sync of exactly one of the two directories of an unflushed rename between different directories (the flush from the new directory's side: oracle + narrow class RenameCrossDir only; unflushed and rolled back by a crash: covered), "
                     "any creation of a file at a name a file left since the last crash (the known finding Recreate is narrower; the "
-                    "re-creations outside it are asserted by the oracle), a rename onto a name a directory was removed from since "
+                    "re-creations outside it are asserted by the oracle), a rename of a file still under an unflushed rename (chains within one directory are asserted by the oracle), a rename onto a name a directory was removed from since "
                     "the last crash, a crash on a dangling durable subtree")
 
     def gen_cases(self, ctx):
@@ -140,6 +140,9 @@ class Spec(PropSpec):
         # Recreate), the removal flushed before or together with the creation, then a crash
         rc = F.recreate_scenarios(rng)
         cases += rc if not q else rng.sample(rc, 120)
+        # chained unflushed renames of a data-synced file within one directory, then flush / crash
+        ch = F.rename_chain_scenarios(rng)
+        cases += ch if not q else rng.sample(ch, 50)
         # torn writes inside / at the end of / across the end of the data-synced contents
         tc = F.torn_scenarios(rng)
         cases += tc if not q else rng.sample(tc, 60)
